@@ -53,8 +53,11 @@ def limits(case):
 
 def run_real(case):
     global _trace
+    kw = {}
+    if case.get("soil_k"):
+        kw["soil"] = (case["soil_k"], 2343493.0, 18.3)
     m = physics.manager(case["method"], pipe=case["pipe"], flow=case.get("flow", "borehole"), load=case["load"], months=case.get("months", 24),
-                        cap=case.get("cap"), cont=case.get("cont", False), narrow=case.get("narrow", False))
+                        cap=case.get("cap"), cont=case.get("cont", False), narrow=case.get("narrow", False), **kw)
     _trace = []
     e = physics.find(m)
     tr, _trace = _trace, None
@@ -342,6 +345,9 @@ def product(tier, prop):
                     for cont in (False, True):
                         for cap in (None, 8):
                             out.append({"method": mth, "pipe": p, "flow": "borehole", "load": ld, "cont": cont, "cap": cap})
+            for ks in (1.2, 3.5):
+                for ld in ("office", "mirror", "balanced"):
+                    out.append({"method": mth, "pipe": "single", "flow": "borehole", "load": ld, "soil_k": ks})
             for p in ("single", "coaxial"):
                 for ld in ("office", "mirror"):
                     out.append({"method": mth, "pipe": p, "flow": "borehole", "load": ld, "narrow": True})
